@@ -128,6 +128,7 @@ fn one_config(st: &mut Stats, rng: &mut Rng, k: usize, len: usize, delays: bool,
             match first { None => first = Some(v.to_bits()), Some(f) => if f != v.to_bits() { st.violation("C16:dot_f64:schedule-dependent", format!("call {} returned {:e}, first call {:e}; {}", r, v, f64::from_bits(f), desc())); } }
         }
         verif::set_dot_delays(vec![]);
+        st.sample(|| format!("{} dot_f64 bits {:x?} a[..4]={:?} b[..4]={:?}", desc(), first, &a[..a.len().min(4)], &b[..b.len().min(4)]));
         st.count(&format!("configs:w{}", k));
         st.set_insert("lengths-mod-workers", format!("w{}:{}", k, if len < k { "len<w".to_string() } else if len % k == 0 { "divisible".to_string() } else { "remainder".to_string() }));
         st.nontrivial(hmix(hmix(hash_str(name), (k * 1_000_000 + len) as u64), delays as u64));
